@@ -15,8 +15,13 @@ UnionFind.  Every method on the whitelist is read IMPERATIVELY and compiled to a
   updates + ONE loop-carried local -> `<m>Cond`, `<m>Body`, `<m>Loop` on a fuel argument); `for v in [a, b]: body`
   (unrolled); `for v in <parameter>: self.m(v)` (foldl); calls `self.m(args)` (left-to-right, state threaded);
   `set(<elt> for v in self._elts [if c])` (a fold `<m>Gen<k>`).
-  `components()` / `component_mapping()` use dicts of sets and lists of lists: they are extracted as a normalised SHAPE
-  (statement list after alpha-renaming of the locals) into a descriptor table.
+  round 4: `self._siz[a] < self._siz[b]` (or `<=`) in `union` -> `sizCmp (..) (..)` with the definition `sizCmp` emitted from the
+  operator found (the bridges and history theorems are proved for ANY comparison, the height bound for any size order);
+  `self._elts[i]`; `components()` imperatively: `roots = self.roots()`, `dict((k, v) for i, r in enumerate(<local list>))` / the
+  dict comprehension, `[[] for _ in <local list>]`, `d[k]` on a local dict (KeyError = none), `for e in self._elts:` with local
+  assignments, calls and ONE local list of lists mutated by `L[i].append(x)` (IndexError = none) -> the fold `<m>For<k>Step`.
+  `component_mapping()` uses a dict of sets: it is extracted as a normalised SHAPE (statement list after alpha-renaming of the
+  locals) into a descriptor table.
 
 Tolerated respellings (normalised away before compiling, so the generated text and the bridges do not change):
   renamed locals / parameters; `not a == b` = `a != b`; `not a in b` = `a not in b`; `a > b` = `b < a`; `a >= b` = `b <= a`;
@@ -36,9 +41,9 @@ PQ_FILE = "mouette/utils/priority_queue.py"
 FIELDS = {"_elts": "elts", "_indx": "indx", "_par": "par", "_siz": "siz", "_next": "next", "n_elts": "nElts", "n_comps": "nComps"}
 LISTS = {"_elts", "_par", "_siz"}
 COUNTERS = {"_next", "n_elts", "n_comps"}
-LEAN_NAME = {"__len__": "len", "__contains__": "contains", "__init__": "ctor"}
+LEAN_NAME = {"__len__": "len", "__contains__": "contains", "__init__": "ctor", "__getitem__": "getitem"}
 EXC = {"ValueError": ".valueError", "KeyError": ".keyError", "IndexError": ".indexError", "TypeError": ".typeError"}
-TY = {"nat": "Nat", "bool": "Bool", "unit": "Unit", "natlist": "List Nat"}
+TY = {"nat": "Nat", "bool": "Bool", "unit": "Unit", "natlist": "List Nat", "dict": "Dict", "listlist": "List (List Nat)"}
 
 
 # ------------------------------------------------------------------------------------------------------------------
@@ -162,6 +167,7 @@ class Unit:
         self.sig = {}        # python method name -> {kind, lean, params:[types], ret}
         self.out = []        # Lean text of the definitions, in order
         self.exc = []        # (lean method name, exception constructor)
+        self.sizcmp = None   # the operator of the size comparison of `union` ("<" or "≤")
 
     def kind(self, m):
         if self.raises[m]: return "partial"
@@ -214,7 +220,10 @@ class Meth:
         out = ""
         for (fn, args, tmp) in pre:
             if self.kind != "partial": raise TranslateError(f"{self.py}: calls a raising method but is not itself raising")
-            out += f"{ind}match {fn} s{''.join(' ' + a for a in args)} with\n{ind}| none => none\n{ind}| some (s, {tmp}) =>\n"
+            if fn is None:       # a read that may raise (KeyError / IndexError) but does not touch the state
+                out += f"{ind}match {args} with\n{ind}| none => none\n{ind}| some {tmp} =>\n"
+            else:
+                out += f"{ind}match {fn} s{''.join(' ' + a for a in args)} with\n{ind}| none => none\n{ind}| some (s, {tmp}) =>\n"
         return out + inner
 
     # -- expressions ---------------------------------------------------------------------------------------------
@@ -237,7 +246,15 @@ class Meth:
             if f == "_par": return f"(parent s.par {i})", "nat"
             if f == "_siz": return f"(sizAt s.siz {i})", "nat"
             if f == "_indx": return f"(dget s.indx {i})", "nat"
+            if f == "_elts": return f"(eltAt s.elts {i})", "nat"
             raise TranslateError(f"{self.py}: subscript of self.{f}")
+        if isinstance(n, ast.Subscript) and isinstance(n.value, ast.Name) and self.locals.get(n.value.id, (None, None))[1] == "dict":
+            # `d[k]` on a local dict: KeyError when absent
+            k, tk = self.cexpr(n.slice, pre)
+            if tk != "nat": raise TranslateError(f"{self.py}: key of type {tk}")
+            t = self.tmp()
+            pre.append((None, f"dlookup {self.locals[n.value.id][0]} {k}", t))
+            return t, "nat"
         if isinstance(n, ast.UnaryOp) and isinstance(n.op, ast.Not):
             e, t = self.cexpr(n.operand, pre)
             if t != "bool": raise TranslateError(f"{self.py}: `not` of a {t}")
@@ -265,6 +282,11 @@ class Meth:
             if ta != "nat" or tb != "nat": raise TranslateError(f"{self.py}: comparison of {ta} and {tb}")
             sym = {ast.Eq: "=", ast.NotEq: "≠", ast.Lt: "<", ast.LtE: "≤"}.get(type(op))
             if sym is None: raise TranslateError(f"{self.py}: comparison operator {type(op).__name__}")
+            if self.py == "union" and sym in ("<", "≤") and all(isinstance(z, ast.Subscript) and _is_self_attr(z.value, "_siz") for z in (a, b)):
+                # THE size comparison of union by size: extracted as the definition `sizCmp` (either spelling is a size order)
+                if self.u.sizcmp not in (None, sym): raise TranslateError("union: two size comparisons with different operators")
+                self.u.sizcmp = sym
+                return f"(sizCmp {ea} {eb})", "bool"
             return f"decide ({ea} {sym} {eb})", "bool"
         if isinstance(n, ast.Call):
             if _is_self_attr(n.func):
@@ -279,6 +301,15 @@ class Meth:
             if isinstance(n.func, ast.Name) and n.func.id == "set" and len(n.args) == 1 and isinstance(n.args[0], (ast.GeneratorExp, ast.ListComp)):
                 e, t = self.cgen(n.args[0], pre)
                 return f"(setOf {e})", "natlist"
+            if isinstance(n.func, ast.Name) and n.func.id == "dict" and len(n.args) == 1 and not n.keywords and isinstance(n.args[0], (ast.GeneratorExp, ast.ListComp)):
+                return self.cdict_enum(n.args[0]), "dict"
+        if isinstance(n, ast.DictComp) and len(n.generators) == 1:
+            g = ast.GeneratorExp(ast.Tuple([n.key, n.value], ast.Load()), n.generators)
+            return self.cdict_enum(g), "dict"
+        if isinstance(n, ast.ListComp) and isinstance(n.elt, ast.List) and not n.elt.elts and len(n.generators) == 1:
+            c = n.generators[0]
+            if isinstance(c.target, ast.Name) and not c.ifs and isinstance(c.iter, ast.Name) and self.locals.get(c.iter.id, (None, None))[1] == "natlist":
+                return f"({self.locals[c.iter.id][0]}.map (fun _ => ([] : List Nat)))", "listlist"
         raise TranslateError(f"{self.py}: unsupported expression {ast.unparse(n)[:80]}")
 
     def call(self, m, args, pre, argtypes=None):
@@ -333,6 +364,73 @@ class Meth:
         t = self.tmp()
         pre.append((name, [saved[k][0] for k in free], t))
         return t, "natlist"
+
+    def cdict_enum(self, g):
+        """`dict((K, V) for I, R in enumerate(L))` (K, V among I, R; L a local list): later pairs win, as in Python"""
+        if len(g.generators) != 1: raise TranslateError(f"{self.py}: nested comprehension")
+        c = g.generators[0]
+        it = c.iter
+        if not (isinstance(it, ast.Call) and isinstance(it.func, ast.Name) and it.func.id == "enumerate" and len(it.args) == 1 and not it.keywords
+                and isinstance(it.args[0], ast.Name) and self.locals.get(it.args[0].id, (None, None))[1] == "natlist" and not c.ifs
+                and isinstance(c.target, ast.Tuple) and len(c.target.elts) == 2 and all(isinstance(x, ast.Name) for x in c.target.elts)
+                and isinstance(g.elt, ast.Tuple) and len(g.elt.elts) == 2):
+            raise TranslateError(f"{self.py}: dict(..) is not `dict((k, v) for i, r in enumerate(<local list>))`")
+        iv, rv = c.target.elts[0].id, c.target.elts[1].id
+        if iv == rv: raise TranslateError(f"{self.py}: enumerate target binds one name twice")
+
+        def comp(x):
+            if isinstance(x, ast.Name) and x.id == iv: return "p.1"
+            if isinstance(x, ast.Name) and x.id == rv: return "p.2"
+            raise TranslateError(f"{self.py}: dict(..) component {ast.unparse(x)}")
+        return f"(dictOf ((enumerate {self.locals[it.args[0].id][0]}).map (fun (p : Nat × Nat) => ({comp(g.elt.elts[0])}, {comp(g.elt.elts[1])}))))"
+
+    def cfor_elts(self, st, rest, ind):
+        """`for e in self._elts: <local assignments, calls, ONE local list of lists mutated by L[i].append(x)>` -> a fold
+        `<m>For<k>Step` over `s.elts` carrying (state, that list); `none` once something has raised"""
+        v = st.target.id
+        if "_elts" in self._written_fields(st): raise TranslateError(f"{self.py}: the loop changes the list it iterates")
+        saved = dict(self.locals)
+        self.locals[v] = ("v_" + v, "nat")
+        body = _strip(st.body)
+        carried = None
+        lines = ""
+        i2 = "      "
+        for b in body:
+            pre = []
+            if isinstance(b, ast.Assign) and len(b.targets) == 1 and isinstance(b.targets[0], ast.Name):
+                w = b.targets[0].id
+                if w in saved: raise TranslateError(f"{self.py}: loop body reassigns the outer local {w}")
+                e, t = self.cexpr(b.value, pre)
+                if any(fn is not None for fn, _, _ in pre) and "s." in e: raise TranslateError(f"{self.py}: state read mixed with a call in one expression")
+                self.locals[w] = ("v_" + w, t)
+                lines += self.wrap(pre, i2, f"{i2}let v_{w} := {e}\n")
+                continue
+            c = b.value if isinstance(b, ast.Expr) else None
+            if isinstance(c, ast.Call) and isinstance(c.func, ast.Attribute) and c.func.attr == "append" and len(c.args) == 1 and not c.keywords \
+                    and isinstance(c.func.value, ast.Subscript) and isinstance(c.func.value.value, ast.Name) \
+                    and saved.get(c.func.value.value.id, (None, None))[1] == "listlist":
+                L = c.func.value.value.id
+                if carried not in (None, L): raise TranslateError(f"{self.py}: two local containers mutated in one loop")
+                carried = L
+                i, ti = self.cexpr(c.func.value.slice, pre); x, tx = self.cexpr(c.args[0], pre)
+                if ti != "nat" or tx != "nat": raise TranslateError(f"{self.py}: bucket append of types {ti},{tx}")
+                lines += self.wrap(pre, i2, f"{i2}match bucketAppend v_{L} {i} {x} with\n{i2}| none => none\n{i2}| some v_{L} =>\n")
+                continue
+            raise TranslateError(f"{self.py}: unsupported statement in a loop over self._elts: {ast.unparse(b)[:80]}")
+        if carried is None: raise TranslateError(f"{self.py}: the loop over self._elts mutates no local container")
+        free = [k for k in self._names(st) if k in saved and k != v and k != carried]
+        self.nfor = getattr(self, "nfor", 0) + 1
+        name = f"{self.lean}For{self.nfor}"
+        ps = "".join(f" ({saved[k][0]} : {TY[saved[k][1]]})" for k in free)
+        pa = "".join(" " + saved[k][0] for k in free)
+        self.aux.append(
+            f"/-- one iteration of `for {v} in self._elts` of `{self.py}`: `none` once something has raised -/\n"
+            f"def {name}Step{ps} (acc : Option (St × List (List Nat))) (v_{v} : Nat) : Option (St × List (List Nat)) :=\n"
+            f"  match acc with\n  | none => none\n  | some (s, v_{carried}) =>\n{lines}{i2}some (s, v_{carried})\n")
+        self.locals = saved
+        if self.kind != "partial": raise TranslateError(f"{self.py}: loop with raising reads in a method not analysed as raising")
+        text = (f"{ind}match s.elts.foldl ({name}Step{pa}) (some (s, v_{carried})) with\n{ind}| none => none\n{ind}| some (s, v_{carried}) =>\n")
+        return text + self.cstmts(rest, ind)
 
     def _names(self, node):
         out = []
@@ -556,6 +654,8 @@ class Meth:
             body = self.sblock(st.body)
             self.locals = saved
             return f"{ind}let s := {self.locals[st.iter.id][0]}.foldl (fun (s : St) (v_{v} : Nat) => {body}) s\n" + self.cstmts(rest, ind)
+        if _is_self_attr(st.iter, "_elts"):
+            return self.cfor_elts(st, rest, ind)
         raise TranslateError(f"{self.py}: for loop over {ast.unparse(st.iter)[:40]}")
 
     # -- whole method --------------------------------------------------------------------------------------------
@@ -568,6 +668,10 @@ class Meth:
         elif self.kind == "total": rt = "St" if ret == "unit" else f"St × {TY[ret]}"
         else: rt = TY[ret]
         doc = doc or f"`UnionFind.{self.py}`"
+        if self.py == "union":
+            if self.u.sizcmp is None: raise TranslateError("union: no comparison `self._siz[a] < self._siz[b]` (or `<=`) found")
+            self.aux.insert(0, f"/-- the size comparison of `union`, as the source spells it (`true`: the first root goes under the second) -/\n"
+                               f"def sizCmp (a b : Nat) : Bool := decide (a {self.u.sizcmp} b)\n")
         d = "".join(self.aux) + f"/-- {doc} -/\ndef {self.lean} (s : St){ps} : {rt} :=\n{text}\n"
         self.u.out.append(d)
         self.u.sig[self.py] = {"kind": self.kind, "lean": self.lean, "params": list(self.ptypes), "ret": ret}
@@ -681,10 +785,13 @@ def site_unionfind():
     det["union"] = Meth(unit, "union").compile()
     det["component"] = Meth(unit, "component").compile()
     det["roots"] = Meth(unit, "roots", []).compile()
+    det["components"] = Meth(unit, "components", []).compile()
+    det["__getitem__"] = Meth(unit, "__getitem__").compile()
     for name, d in det.items():
         want = {"__len__": ("pure", "nat"), "__contains__": ("pure", "bool"), "add": ("total", "unit"), "__init__": ("total", "unit"),
                 "find": ("partial", "nat"), "connected": ("partial", "bool"), "union": ("partial", "unit"),
-                "component": ("partial", "natlist"), "roots": ("partial", "natlist")}[name]
+                "component": ("partial", "natlist"), "roots": ("partial", "natlist"),
+                "components": ("partial", "listlist"), "__getitem__": ("partial", "nat")}[name]
         if (d["kind"], d["returns"]) != want:
             raise TranslateError(f"{name}: analysed as {d['kind']} returning {d['returns']}, expected {want[0]} returning {want[1]}")
     out += "\n".join(x for x in unit.out if x)
@@ -692,17 +799,15 @@ def site_unionfind():
     out += "def raisesTable : List (String × PyExc) := [" + ", ".join(f"({lean_str(m)}, {e})" for m, e in unit.exc) + "]\n"
     # shapes
     sh = {}
-    for name in ("components", "component_mapping"):
+    for name in ("component_mapping",):
         fn = unit.methods.get(name)
         if fn is None: raise TranslateError(f"method {name} not found")
         sh[name] = shape(fn)
-    out += "\n/-- `components()`: normalised statement list (locals renamed v0, v1, … in order of first occurrence) -/\n"
-    out += "def componentsShape : List String := [" + ", ".join(lean_str(s) for s in sh["components"]) + "]\n"
-    out += "/-- `component_mapping()`: normalised statement list -/\n"
+    out += "\n/-- `component_mapping()`: normalised statement list (locals renamed v0, v1, … in order of first occurrence) -/\n"
     out += "def componentMappingShape : List String := [" + ", ".join(lean_str(s) for s in sh["component_mapping"]) + "]\n"
     out += UF_END
     _, sha = T.write_generated("C20UF", out, header=UF_HEADER)
-    return {"sha": sha, "methods": det, "raises": unit.exc, "init": fields, "shapes": sh}
+    return {"sha": sha, "methods": det, "raises": unit.exc, "init": fields, "shapes": sh, "size_comparison": unit.sizcmp}
 
 
 # ---- priority queue ----------------------------------------------------------------------------------------------
@@ -896,7 +1001,7 @@ def site_priority_queue():
 
 def translate():
     return [
-        T.site("unionfind.py: UnionFind.__init__/__len__/__contains__/add/find/connected/union/component/roots (state-passing definitions), "
-               "components/component_mapping (normalised shape), raise table", site_unionfind),
+        T.site("unionfind.py: UnionFind.__init__/__len__/__contains__/__getitem__/add/find/connected/union (+ its size comparison)/component/roots/"
+               "components (state-passing definitions), component_mapping (normalised shape), raise table", site_unionfind),
         T.site("priority_queue.py: PriorityItem fields + __lt__, PriorityQueue.data home, push/get/pop/front/empty over heapq", site_priority_queue),
     ]
